@@ -32,6 +32,21 @@ BLOCK, TAG, LENB = 1024, 16, 2
 
 
 class _Conn:
+    """Stand-in for the HomeKitConnection a protocol object reports to.  Permissive on purpose: attributes a
+    refactoring might read (name, hosts, ...) exist, so that only the framing behaviour decides the verdict."""
+    name = "verif-stub"
+    hosts = ["10.0.0.1"]
+    port = 51826
+    connected_host = "10.0.0.1"
+    host_header = "Host: 10.0.0.1"
+    owner = None
+    closing = False
+    closed = False
+    is_secure = True
+    is_connected = True
+    transport = None
+    protocol = None
+
     def __init__(self):
         self.events = []
 
@@ -40,6 +55,11 @@ class _Conn:
 
     def _connection_lost(self, exc):
         pass
+
+    def __getattr__(self, item):
+        if item.startswith("__"):
+            raise AttributeError(item)
+        return None
 
 
 class _Transport:
@@ -172,6 +192,8 @@ def _run_inbound(rng, sizes, corrupt, reads, bit=None):
             if msgs is not None:
                 other_exc = repr(ex)
             proto.current_response = type(proto.current_response)()
+        if tr.closed:
+            dead = True         # ending the session by closing the transport is as good as raising
         deliv.append(sum(1 for e in log if e[0] == "ok"))
     rec = {"kind": "in", "sizes": list(sizes), "corrupt": [corrupt[0], corrupt[1]], "badlen": badlen,
            "reads": used_reads, "deliv": deliv, "dead": dead}
